@@ -692,7 +692,10 @@ class World:
             r = self.call('forall' if fa else 'exist', keep,
                           ('qvars', names), ('u', u))
         else:
-            c = self.api.cube({x: True for x in names})
+            # the quantified variables are those of the cube, whatever
+            # the polarity of its literals
+            c = self.api.cube({x: not ((mask >> (8 + l % 8)) & 1)
+                               for l, x in enumerate(names)})
             r = self.api.apply('\\A' if fa else '\\E', c, u)
         self.hold(r, want, keep)
 
@@ -826,15 +829,99 @@ class World:
         require((p is None) == (tu == 0), 'pick.none_iff_false',
                 dict(p=p))
         care = set(self.order[:1 + i % max(1, len(self.order))])
-        for d in self.api.pick_iter(u, care_vars=care | want):
-            require(care | want <= set(d), 'pick_iter.care_var_missing',
+        cw = care | want
+        form = (i >> 6) % 4
+        if form == 1:
+            care_arg = sorted(cw)
+        elif form == 2:
+            care_arg = sorted(cw, reverse=True)
+        elif form == 3 and cw:
+            # a list built by concatenating supports names a variable twice
+            care_arg = sorted(cw) + sorted(cw)[:1 + i % 2]
+            self.label('pick_iter.care_list_with_repeated_name')
+        else:
+            care_arg = set(cw)
+        acc = 0
+        for d in self.api.pick_iter(u, care_vars=care_arg):
+            require(cw <= set(d), 'pick_iter.care_var_missing',
                     dict(d=d))
-            idx = 0
+            # the total assignments that complete d
+            m_d = self.F
             for x, v in d.items():
-                if v:
-                    idx |= 1 << self.idx[x]
-            require((tu >> idx) & 1, 'pick_iter.not_model', dict(d=d))
+                xv = self.var_tt(x)
+                m_d &= xv if v else (~xv & self.F)
+            require(m_d & ~tu & self.F == 0, 'pick_iter.not_model',
+                    dict(d=d))
+            require(m_d & acc == 0, 'pick_iter.overlap', dict(d=d))
+            acc |= m_d
+        require(acc == tu, 'pick_iter.care_not_all_models',
+                dict(missing=tt.popcount(tu & ~acc)))
         self.label('queries')
+
+    def op_mutate_views(self, i, k):
+        """Containers handed out by the manager belong to the caller:
+        editing them must not reach the manager, nor the next answer."""
+        k %= 4
+        lv = {x: l for l, x in enumerate(self.order)}
+        if k == 0:
+            d = self.api.var_levels
+            require(dict(d) == lv, 'var_levels.wrong', dict(got=dict(d)))
+            # the usual way to derive another order from the current one
+            names = list(d)
+            if len(names) >= 2:
+                d[names[0]], d[names[-1]] = d[names[-1]], d[names[0]]
+            d['zz_scratch'] = len(names)
+            d = None
+            d2 = self.api.var_levels
+            require(dict(d2) == lv, 'var_levels.changed_by_editing_a_copy',
+                    dict(got=dict(d2)))
+            self.label('mutate_views.var_levels')
+            return
+        if not self.held:
+            return
+        e = self.held[i % len(self.held)]
+        u, tu = e.ref, e.t
+        want = {self.U[j] for j in tt.support(tu, self.n)}
+        if k == 1:
+            s1 = self.api.support(u)
+            require(set(s1) == want, 'support.wrong')
+            s1 |= {'zz_scratch'}
+            for x in list(want)[:1]:
+                s1.discard(x)
+            require(set(self.api.support(u)) == want,
+                    'support.changed_by_editing_a_result')
+            if self.kind == 'autoref':
+                s2 = u.support
+                require(set(s2) == want, 'support.wrong')
+                s2 |= set(self.order)
+                s2.add('zz_scratch')
+                require(set(u.support) == want,
+                        'support.changed_by_editing_a_result')
+            self.label('mutate_views.support')
+        elif k == 2:
+            p = self.api.pick(u)
+            if p is not None:
+                for x in list(p):
+                    p[x] = not p[x]
+                p['zz_scratch'] = True
+                p2 = self.api.pick(u)
+                idx = 0
+                for x, v in p2.items():
+                    require(x in want, 'pick.not_over_support',
+                            dict(p=p2))
+                    if v:
+                        idx |= 1 << self.idx[x]
+                require((tu >> idx) & 1, 'pick.not_model', dict(p=p2))
+            self.label('mutate_views.pick')
+        else:
+            a = abs(self.node(u))
+            ds = self.b.descendants([self.node(u)])
+            want_nodes = reachable(self.b, [a])
+            require(set(ds) == want_nodes, 'descendants.wrong')
+            ds.clear()
+            require(set(self.b.descendants([self.node(u)])) == want_nodes,
+                    'descendants.changed_by_editing_a_result')
+            self.label('mutate_views.descendants')
 
     def op_compare_all(self, k):
         """All comparisons among a few held references (dd.autoref
@@ -1244,7 +1331,7 @@ class World:
                 == snap, 'xcopy.source_changed')
         peer.check()
 
-    def op_xcopy_vars(self, d):
+    def op_xcopy_vars(self, d, form=0):
         """copy_vars to / from the second manager: reproduces names and
         levels, or refuses."""
         import dd._copy as _copy
@@ -1275,7 +1362,11 @@ class World:
             return
 
         def do():
-            if src.kind == 'autoref' and dst.kind == 'autoref':
+            if form % 2:
+                # the generic function on whatever the two managers are
+                self.label('copy_vars.generic')
+                _copy.copy_vars(src.api, dst.api)
+            elif src.kind == 'autoref' and dst.kind == 'autoref':
                 src._ar.copy_vars(src.A, dst.A)
             else:
                 _copy.copy_vars(src.b, dst.b)
@@ -1486,7 +1577,7 @@ class World:
         'add_expr_deep_failure', 'cube_bad_after_progress',
         'let_compose_late_failure', 'max_nodes_full', 'copy_missing_var',
         'image_unknown_var_late', 'add_var_new_at_used_level',
-        'copy_vars_conflict',
+        'copy_vars_conflict', 'load_pickle_level_conflict',
     ]
 
     def op_full(self, a, b):
@@ -1503,8 +1594,16 @@ class World:
         before = (len(self.b), sum(self.b._ref.values()))
         fn = getattr(self, '_bad_' + name)
         raised = None
+        with_roots = bool((a >> 9) & 1) and bool(self.held)
+        if with_roots:
+            # the optional `roots` attribute is in use
+            self.b.roots = {self.node(e.ref) for e in self.held}
         try:
-            fn(a, b)
+            try:
+                fn(a, b)
+            finally:
+                if with_roots:
+                    self.b.roots = set()
         except self._bddmod._NeedsReordering:
             raise Violation('bad.signal_escaped', dict(kind=name))
         except Violation:
@@ -1699,6 +1798,25 @@ class World:
             S = _mk_bdd_class()()
             S.declare(*rot)
             _copy.copy_vars(S, self.b)
+
+    def _bad_load_pickle_level_conflict(self, a, b):
+        """Pickle dumped by a manager whose levels conflict with this
+        one, loaded with levels=True: refused before anything new is
+        declared."""
+        import os
+        n = len(self.order)
+        if n < 2:
+            raise ValueError('n/a')
+        rot = self.order[1:] + self.order[:1]
+        S = _mk_bdd_class()()
+        S.declare(*rot)
+        u = S.add_expr(f'{rot[0]} /\\ ~ {rot[-1]}')
+        fname = os.path.join(os.getcwd(), 'conflict.p')
+        S.dump(fname, roots=[u])
+        try:
+            self.api.load(fname, levels=True)
+        finally:
+            os.remove(fname)
 
     def _bad_reorder_partial_order(self, a, b):
         if len(self.order) < 2:
